@@ -5,11 +5,14 @@ root = os.path.dirname(os.path.dirname(os.path.abspath(__file__)))
 th = {}
 if len(sys.argv) > 1:
     for line in open(sys.argv[1]):
-        m = re.match(r"\[(C\d\d)\] tier=thorough .* wall=([\d.]+)s coverage=(\{.*\})", line)
+        m = re.match(r"\[(C\d\d)\] tier=thorough .* wall=([\d.]+)s coverage=(\{.*)", line)
         if m:
-            try: cov = eval(m.group(3), {"True": True, "False": False})
-            except Exception: cov = {}
-            th[m.group(1)] = (float(m.group(2)), cov)
+            # the log line may be truncated: pick the counters out by name (first occurrence = top level)
+            cov = {}
+            for key in ("states", "transitions", "evaluations"):
+                mm = re.search(r"'%s': (\d+)" % key, m.group(3))
+                if mm: cov[key] = int(mm.group(1))
+            th[m.group(1)] = (float(m.group(2)), cov)      # a later line for the same id (a later run) replaces an earlier one
 def fmt(cov):
     if "states" in cov and "transitions" in cov and cov.get("states"):
         s = f"{cov['states']:,} states / {cov['transitions']:,} transitions".replace(",", " ")
